@@ -456,6 +456,13 @@ class SParser(c17.Parser):
                 stmts.append(('assign', ('var', v), op, e))
             elif self.effect_ahead():
                 stmts.append(self.effect_call())
+            elif (k, v) == ('op', '{'):
+                # a bare block used as a statement: its statements are spliced in (no `let`, so nothing can leak out of it)
+                inner, itail = self.block()
+                if itail is not None or any(x[0] == 'let' for x in inner):
+                    raise TranslateError('bare block with a value or a `let` not in the grammar')
+                self.accept('op', ';')
+                stmts += inner
             else:
                 e = self.expr()
                 if self.accept('op', ';'):
@@ -840,6 +847,8 @@ class Em:
             return 'bool'
         if k == 'cast':
             return e[2]
+        if k == 'errv':
+            return None
         if k == 'wrap':
             return e[4] or self.ty_of(e[2]) or self.ty_of(e[3])
         if k in ('minmax', 'sat'):
@@ -975,6 +984,14 @@ class Em:
         inner = e[1]
         if inner[0] == 'num' and inner[2] is None and len(e) == 3:
             return self.comp(('num', inner[1], ty), ty)
+        if inner[0] == 'errv' and inner[1].startswith('AeronCommand::') and not inner[2] and len(e) == 3:
+            # a variant of the #[repr(C)] enum AeronCommand cast to an integer: the discriminant the compiler assigned
+            g = 'CMD_' + inner[1].split('::')[1]
+            if g not in self.ctx.dumped:
+                raise TranslateError('%s is not dumped into GenConsts' % inner[1])
+            if ty != 'i32':
+                return '%s GenConsts.%s' % (wrap_text(ty), g), ty
+            return 'GenConsts.%s' % g, ty
         it, ity = self.comp(inner, None)
         if ity == 'bool':
             if len(e) == 4:
@@ -1584,6 +1601,47 @@ def find_fragment(toks, frag):
                     continue
                 return _until(toks, i + 1, (';',)), None
         raise TranslateError('return number %d not found' % nth)
+    if kind == 'callarg':
+        # ('callarg', function or method name, which call of it, which argument)
+        fname, nth, argi = frag[1], frag[2], frag[3]
+        seen = 0
+        for i in range(len(toks) - 1):
+            if toks[i] == ('id', fname):
+                j = i + 1
+                if toks[j] == ('op', '::') and toks[j + 1] == ('op', '<'):      # turbofish
+                    while toks[j] != ('op', '>'):
+                        j += 1
+                    j += 1
+                if toks[j] != ('op', '('):
+                    continue
+                if seen < nth:
+                    seen += 1
+                    continue
+                j += 1
+                for _ in range(argi):
+                    skipped = _until(toks, j, (',',))
+                    j += len(skipped) + 1
+                return _until(toks, j, (',', ')')), None
+        raise TranslateError('call number %d of %s not found' % (nth, fname))
+    if kind == 'closure':
+        # ('closure', method name, which call): the body of the closure passed as its first argument
+        fname, nth = frag[1], frag[2]
+        seen = 0
+        for i in range(len(toks) - 2):
+            if toks[i] == ('id', fname) and toks[i + 1] == ('op', '(') and toks[i + 2][1] in ('|', '||'):
+                if seen < nth:
+                    seen += 1
+                    continue
+                j = i + 2
+                if toks[j] == ('op', '|'):
+                    j += 1
+                    while toks[j] != ('op', '|'):
+                        j += 1
+                j += 1
+                if toks[j] == ('op', '{'):
+                    return _until(toks, j + 1, ('}',)), None
+                return _until(toks, j, (',', ')')), None
+        raise TranslateError('closure number %d passed to %s not found' % (nth, fname))
     if kind == 'field':
         name = frag[1]
         for i in range(1, len(toks) - 1):
@@ -1753,6 +1811,242 @@ AREAS['ring'] = dict(out='GenSrcRing', files=[RB, BIT], requires=['GenSrcBits'],
       vars={'tail_position': 'i64', 'mask': 'i64'}),
     F(RB, RBM, 'unblock', 'src_rb_unblock_limit', frag=('let', 'limit'), self=['capacity'],
       params=['producer_index', 'consumer_index'], vars={'producer_index': 'i32', 'consumer_index': 'i32'}),
+])
+
+
+BTXM = 'BroadcastTransmitter'
+BRXM = 'BroadcastReceiver'
+GET_LEN = ('self . buffer . get :: < i32 > ( record_descriptor :: length_offset ( record_offset ) )', 'length_word', 'i32')
+AREAS['broadcast'] = dict(out='GenSrcBroadcast', files=[BBD, BRD, BTX, BRX, BIT], requires=['GenSrcBits'], fns=[
+    F(BBD, None, 'check_capacity', 'src_bc_check_capacity'),
+    F(BRD, None, 'calculate_max_message_length', 'src_bc_calculate_max_message_length'),
+    F(BRD, None, 'length_offset', 'src_bc_length_offset'),
+    F(BRD, None, 'type_offset', 'src_bc_type_offset'),
+    F(BRD, None, 'msg_offset', 'src_bc_msg_offset'),
+    F(BRD, None, 'check_msg_type_id', 'src_bc_check_msg_type_id'),
+    F(BTX, BTXM, 'check_message_length', 'src_bc_check_message_length', self=['max_msg_length']),
+    F(BTX, BTXM, 'new', 'src_bc_tx_new', skip_params=['buffer'], skip_fields=['buffer'],
+      opaque=[('buffer . capacity ( )', 'buffer_capacity', 'i32')]),
+    F(BTX, BTXM, 'transmit', 'src_bc_tx_record_offset', frag=('let', 'record_offset'), self=['mask'],
+      params=['current_tail'], vars={'current_tail': 'i64'}),
+    F(BTX, BTXM, 'transmit', 'src_bc_tx_record_length', frag=('let', 'record_length'), params=['length']),
+    F(BTX, BTXM, 'transmit', 'src_bc_tx_aligned_record_length', frag=('let', 'aligned_record_length'),
+      params=['record_length'], vars={'record_length': 'i32'}),
+    F(BTX, BTXM, 'transmit', 'src_bc_tx_new_tail', frag=('let', 'new_tail'), params=['current_tail', 'aligned_record_length'],
+      vars={'current_tail': 'i64', 'aligned_record_length': 'i32'}),
+    F(BTX, BTXM, 'transmit', 'src_bc_tx_to_end_of_buffer', frag=('let', 'to_end_of_buffer'), self=['capacity'],
+      params=['record_offset'], vars={'record_offset': 'i32'}),
+    F(BTX, BTXM, 'transmit', 'src_bc_tx_wraps', frag=('cond', 'if', 0), params=['to_end_of_buffer', 'aligned_record_length'],
+      vars={'to_end_of_buffer': 'i32', 'aligned_record_length': 'i32'}),
+    F(BTX, BTXM, 'transmit', 'src_bc_tx_intent_wrapped', frag=('callarg', 'signal_tail_intent', 0, 0),
+      params=['new_tail', 'to_end_of_buffer'], vars={'new_tail': 'i64', 'to_end_of_buffer': 'i32'}, ty='i64'),
+    F(BTX, BTXM, 'transmit', 'src_bc_tx_tail_after_padding', frag=('assign', 'current_tail', '+='),
+      params=['current_tail', 'to_end_of_buffer'], vars={'current_tail': 'i64', 'to_end_of_buffer': 'i32'}),
+    F(BTX, BTXM, 'transmit', 'src_bc_tx_final_tail', frag=('callarg', 'put_ordered', 0, 1),
+      params=['current_tail', 'aligned_record_length'], vars={'current_tail': 'i64', 'aligned_record_length': 'i32'}, ty='i64'),
+    F(BRX, BRXM, 'do_validate', 'src_bc_rx_do_validate', self=['capacity'],
+      opaque=[('self . buffer . get_volatile :: < i64 > ( self . tail_intent_counter_index )', 'tail_intent', 'i64')]),
+    F(BRX, BRXM, 'offset', 'src_bc_rx_offset', self=['record_offset']),
+    F(BRX, BRXM, 'length', 'src_bc_rx_length',
+      opaque=[('self . buffer . get :: < i32 > ( record_descriptor :: length_offset ( self . record_offset ) )', 'length_word', 'i32')]),
+    F(BRX, BRXM, 'receive_next', 'src_bc_rx_available', frag=('cond', 'if', 0), params=['tail', 'cursor'],
+      vars={'tail': 'i64', 'cursor': 'i64'}),
+    F(BRX, BRXM, 'receive_next', 'src_bc_rx_record_offset', frag=('let', 'record_offset'), self=['mask'],
+      params=['cursor'], vars={'cursor': 'i64'}),
+    F(BRX, BRXM, 'receive_next', 'src_bc_rx_next_record', frag=('selfassign', 'next_record', '='), params=['cursor'],
+      vars={'cursor': 'i64'}, opaque=[GET_LEN], ty='i64'),
+    F(BRX, BRXM, 'receive_next', 'src_bc_rx_is_padding', frag=('cond', 'if', 2),
+      opaque=[('self . buffer . get :: < i32 > ( record_descriptor :: type_offset ( record_offset ) )', 'type_word', 'i32')]),
+    F(BRX, BRXM, 'receive_next', 'src_bc_rx_next_record_after_padding', frag=('selfassign', 'next_record', '+='),
+      self=['next_record'], opaque=[GET_LEN], ty='i64'),
+])
+
+CRD = 'CountersReader'
+CMG = 'CountersManager'
+AREAS['counters'] = dict(out='GenSrcCounters', files=[CNT], fns=[
+    F(CNT, CRD, 'counter_offset', 'src_cnt_counter_offset'),
+    F(CNT, CRD, 'metadata_offset', 'src_cnt_metadata_offset'),
+    F(CNT, CRD, 'validate_counter_id', 'src_cnt_validate_counter_id', self=['max_counter_id']),
+    F(CNT, CRD, 'new', 'src_cnt_max_counter_id', frag=('field', 'max_counter_id'), ty='i32',
+      opaque=[('values_buffer . capacity ( )', 'values_capacity', 'i32'),
+              ('metadata_buffer . capacity ( )', 'metadata_capacity', 'i32')]),
+    F(CNT, CMG, 'check_counters_capacity', 'src_cnt_check_counters_capacity',
+      opaque=[('self . reader . values_buffer . capacity ( )', 'values_capacity', 'i32')]),
+    F(CNT, CMG, 'check_meta_data_capacity', 'src_cnt_check_meta_data_capacity',
+      opaque=[('self . reader . metadata_buffer . capacity ( )', 'metadata_capacity', 'i32')]),
+    F(CNT, CMG, 'allocate_opt', 'src_cnt_label_too_long', frag=('cond', 'if', 1),
+      opaque=[('label . as_bytes ( ) . len ( )', 'label_len', 'usize')]),
+    F(CNT, CMG, 'allocate_opt', 'src_cnt_key_too_long', frag=('cond', 'if', 4),
+      opaque=[('key . len ( )', 'key_len', 'usize')]),
+    F(CNT, CMG, 'free', 'src_cnt_free_deadline', frag=('callarg', 'put', 0, 1), self=['free_to_reuse_timeout_ms'],
+      opaque=[('( self . clock ) ( )', 'now', 'u64')], ty='u64'),
+    F(CNT, CMG, 'free', 'src_cnt_free_deadline_offset', frag=('callarg', 'put', 0, 0), params=['record_offset'],
+      vars={'record_offset': 'i32'}, ty='i32'),
+    F(CNT, CMG, 'next_counter_id', 'src_cnt_reusable', frag=('closure', 'find', 0), ty='bool',
+      params=['now_ms'], vars={'now_ms': 'u64'},
+      opaque=[('self . reader . metadata_buffer . get_volatile :: < i64 > ( CountersReader :: metadata_offset ( * * id ) + * FREE_TO_REUSE_DEADLINE_OFFSET )',
+               'deadline', 'i64')]),
+])
+
+
+AREAS['frame'] = dict(out='GenSrcFrame', files=[FD, DFH, TSCAN, TREAD], fns=[
+    F(FD, None, 'check_header_length', 'src_fd_check_header_length'),
+    F(FD, None, 'check_max_frame_length', 'src_fd_check_max_frame_length'),
+    F(FD, None, 'type_offset', 'src_fd_type_offset'),
+    F(FD, None, 'flags_offset', 'src_fd_flags_offset'),
+    F(FD, None, 'length_offset', 'src_fd_length_offset'),
+    F(FD, None, 'term_offset_offset', 'src_fd_term_offset_offset'),
+    F(TSCAN, None, 'scan_outcome', 'src_scan_outcome'),
+    F(TSCAN, None, 'available', 'src_scan_available'),
+    F(TSCAN, None, 'padding', 'src_scan_padding'),
+    # term_scan::scan (block_poll)
+    F(TSCAN, None, 'scan', 'src_scan_continue', frag=('cond', 'while', 0), params=['offset', 'limit_offset'], vars={'offset': 'i32'}),
+    F(TSCAN, None, 'scan', 'src_scan_stop', frag=('cond', 'if', 0), params=['frame_length'], vars={'frame_length': 'i32'}),
+    F(TSCAN, None, 'scan', 'src_scan_aligned_frame_length', frag=('let', 'aligned_frame_length'), params=['frame_length'],
+      vars={'frame_length': 'i32'}),
+    F(TSCAN, None, 'scan', 'src_scan_padding_first', frag=('cond', 'if', 2), params=['term_offset', 'offset'], vars={'offset': 'i32'}),
+    F(TSCAN, None, 'scan', 'src_scan_over_limit', frag=('cond', 'if', 3), params=['offset', 'aligned_frame_length', 'limit_offset'],
+      vars={'offset': 'i32', 'aligned_frame_length': 'i32'}),
+    F(TSCAN, None, 'scan', 'src_scan_advance', frag=('assign', 'offset', '+=', 1), params=['offset', 'aligned_frame_length'],
+      vars={'offset': 'i32', 'aligned_frame_length': 'i32'}),
+    # term_reader::read (poll)
+    F(TREAD, None, 'read', 'src_read_continue', frag=('cond', 'while', 0),
+      params=['fragments_read', 'fragments_limit', 'term_offset', 'capacity'], vars={'fragments_read': 'i32', 'capacity': 'i32'},
+      opaque=[('outcome . fragments_read', 'fragments_read_field', 'i32')]),
+    F(TREAD, None, 'read', 'src_read_stop', frag=('cond', 'if', 0), params=['frame_length'], vars={'frame_length': 'i32'}),
+    F(TREAD, None, 'read', 'src_read_advance', frag=('assign', 'term_offset', '+='), params=['term_offset', 'frame_length'],
+      vars={'frame_length': 'i32'}),
+    F(TREAD, None, 'read', 'src_read_data_offset', frag=('callarg', 'data_handler', 0, 1), params=['fragment_offset'],
+      vars={'fragment_offset': 'i32'}, ty='i32'),
+    F(TREAD, None, 'read', 'src_read_data_length', frag=('callarg', 'data_handler', 0, 2), params=['frame_length'],
+      vars={'frame_length': 'i32'}, ty='i32'),
+])
+
+PUBM = 'Publication'
+XPUBM = 'ExclusivePublication'
+TAPM = 'TermAppender'
+CAP0 = ('log_buffers . atomic_buffer ( 0 ) . capacity ( )', 'term_capacity', 'i32')
+MTU = ('log_buffer_descriptor :: mtu_length ( & log_md_buffer )', 'mtu_length', 'i32')
+ISCONN = ('log_buffer_descriptor :: is_connected ( & self . log_meta_data_buffer )', 'is_connected', 'bool')
+AREAS['pub'] = dict(out='GenSrcPub', files=[PUB, XPUB, TAPP, BIT, FD, LBD], requires=['GenSrcBits'], fns=[
+    # Publication
+    F(PUB, PUBM, 'new_position', 'src_pub_new_position', self=['max_possible_position'], effects=['rotate_log']),
+    F(PUB, PUBM, 'back_pressure_status', 'src_pub_back_pressure_status', self=['max_possible_position'], ret='err',
+      opaque=[ISCONN]),
+    F(PUB, PUBM, 'check_max_message_length', 'src_pub_check_max_message_length', self=['max_message_length']),
+    F(PUB, PUBM, 'check_payload_length', 'src_pub_check_payload_length', self=['max_payload_length']),
+    F(PUB, PUBM, 'new', 'src_pub_max_possible_position', frag=('field', 'max_possible_position'), opaque=[CAP0], ty='i64'),
+    F(PUB, PUBM, 'new', 'src_pub_max_payload_length', frag=('field', 'max_payload_length'), opaque=[MTU], ty='i32'),
+    F(PUB, PUBM, 'new', 'src_pub_max_message_length', frag=('field', 'max_message_length'), opaque=[CAP0], ty='i32'),
+    F(PUB, PUBM, 'new', 'src_pub_position_bits_to_shift', frag=('field', 'position_bits_to_shift'), opaque=[CAP0], ty='i32'),
+    F(PUB, PUBM, 'offer_opt', 'src_pub_offer_term_offset', frag=('let', 'term_offset'), params=['raw_tail'], vars={'raw_tail': 'i64'}),
+    F(PUB, PUBM, 'offer_opt', 'src_pub_offer_position', frag=('let', 'position'), self=['position_bits_to_shift', 'initial_term_id'],
+      params=['term_id', 'term_offset'], vars={'term_id': 'i32', 'term_offset': 'i64'}),
+    F(PUB, PUBM, 'offer_opt', 'src_pub_offer_term_mismatch', frag=('cond', 'if', 1), self=['initial_term_id'],
+      params=['term_count', 'term_id'], vars={'term_count': 'i32', 'term_id': 'i32'}),
+    F(PUB, PUBM, 'offer_opt', 'src_pub_offer_below_limit', frag=('cond', 'if', 2), params=['position', 'limit'],
+      vars={'position': 'i64', 'limit': 'i64'}),
+    F(PUB, PUBM, 'offer_opt', 'src_pub_offer_unfragmented', frag=('cond', 'if', 3), self=['max_payload_length'], params=['length']),
+    F(PUB, PUBM, 'offer_opt', 'src_pub_offer_term_offset_arg', frag=('callarg', 'new_position', 0, 1), params=['term_offset'],
+      vars={'term_offset': 'i64'}, ty='i32'),
+    F(PUB, PUBM, 'try_claim', 'src_pub_claim_position', frag=('let', 'position'), self=['position_bits_to_shift', 'initial_term_id'],
+      params=['term_id', 'term_offset'], vars={'term_id': 'i32', 'term_offset': 'i64'}),
+    F(PUB, PUBM, 'try_claim', 'src_pub_claim_term_mismatch', frag=('cond', 'if', 1), self=['initial_term_id'],
+      params=['term_count', 'term_id'], vars={'term_count': 'i32', 'term_id': 'i32'}),
+    F(PUB, PUBM, 'try_claim', 'src_pub_claim_below_limit', frag=('cond', 'if', 2), params=['position', 'limit'],
+      vars={'position': 'i64', 'limit': 'i64'}),
+    # ExclusivePublication
+    F(XPUB, XPUBM, 'new_position', 'src_xpub_new_position',
+      self=['term_begin_position', 'max_possible_position', 'active_partition_index', 'term_id', 'initial_term_id', 'term_offset'],
+      opaque=[('self . term_buffer_length ( )', 'term_buffer_length', 'i32')],
+      effects=['initialize_tail_with_term_id', 'set_active_term_count_ordered']),
+    F(XPUB, XPUBM, 'back_pressure_status', 'src_xpub_back_pressure_status', self=['max_possible_position'], ret='err',
+      opaque=[ISCONN]),
+    F(XPUB, XPUBM, 'check_max_message_length', 'src_xpub_check_max_message_length', self=['max_message_length']),
+    F(XPUB, XPUBM, 'check_payload_length', 'src_xpub_check_payload_length', self=['max_payload_length']),
+    F(XPUB, XPUBM, 'new', 'src_xpub_max_possible_position', frag=('field', 'max_possible_position'), opaque=[CAP0], ty='i64'),
+    F(XPUB, XPUBM, 'new', 'src_xpub_max_payload_length', frag=('field', 'max_payload_length'), opaque=[MTU], ty='i32'),
+    F(XPUB, XPUBM, 'new', 'src_xpub_position_bits_to_shift', frag=('field', 'position_bits_to_shift'), opaque=[CAP0], ty='i32'),
+    F(XPUB, XPUBM, 'offer_opt', 'src_xpub_offer_position', frag=('let', 'position'), self=['term_begin_position', 'term_offset']),
+    F(XPUB, XPUBM, 'offer_opt', 'src_xpub_offer_below_limit', frag=('cond', 'if', 1), params=['position', 'limit'],
+      vars={'position': 'i64', 'limit': 'i64'}),
+    F(XPUB, XPUBM, 'offer_opt', 'src_xpub_offer_unfragmented', frag=('cond', 'if', 2), self=['max_payload_length'], params=['length']),
+    F(XPUB, XPUBM, 'offer_opt', 'src_xpub_offer_too_long', frag=('cond', 'if', 3), self=['max_message_length'], params=['length']),
+    F(XPUB, XPUBM, 'position', 'src_xpub_position', frag=('callarg', 'Ok', 0, 0), self=['term_begin_position', 'term_offset'], ty='i64'),
+    # TermAppender: lengths and the end-of-term decision
+    F(TAPP, TAPM, 'append_unfragmented_message', 'src_ta_frame_length', frag=('let', 'frame_length'), params=['length']),
+    F(TAPP, TAPM, 'append_unfragmented_message', 'src_ta_aligned_length', frag=('let', 'aligned_length'), params=['frame_length'],
+      vars={'frame_length': 'i32'}),
+    F(TAPP, TAPM, 'append_unfragmented_message', 'src_ta_term_offset', frag=('let', 'term_offset'), params=['raw_tail'],
+      vars={'raw_tail': 'i64'}),
+    F(TAPP, TAPM, 'append_unfragmented_message', 'src_ta_resulting_offset', frag=('let', 'resulting_offset'),
+      params=['term_offset', 'aligned_length'], vars={'term_offset': 'i64', 'aligned_length': 'i32'}),
+    F(TAPP, TAPM, 'append_unfragmented_message', 'src_ta_trips', frag=('cond', 'if', 0), params=['resulting_offset', 'term_length'],
+      vars={'resulting_offset': 'i64', 'term_length': 'i32'}),
+    F(TAPP, TAPM, 'append_fragmented_message', 'src_ta_num_max_payloads', frag=('let', 'num_max_payloads'),
+      params=['length', 'max_payload_length']),
+    F(TAPP, TAPM, 'append_fragmented_message', 'src_ta_remaining_payload', frag=('let', 'remaining_payload'),
+      params=['length', 'max_payload_length']),
+    F(TAPP, TAPM, 'append_fragmented_message', 'src_ta_last_frame_length', frag=('let', 'last_frame_length'),
+      params=['remaining_payload'], vars={'remaining_payload': 'i32'}, ty='i32'),
+    F(TAPP, TAPM, 'append_fragmented_message', 'src_ta_required_length', frag=('let', 'required_length'),
+      params=['num_max_payloads', 'max_payload_length', 'last_frame_length'],
+      vars={'num_max_payloads': 'i32', 'last_frame_length': 'i32'}),
+    F(TAPP, TAPM, 'handle_end_of_log_condition', 'src_ta_pads', frag=('cond', 'if', 0), params=['term_offset', 'term_length']),
+    F(TAPP, TAPM, 'handle_end_of_log_condition', 'src_ta_padding_length', frag=('let', 'padding_length'),
+      params=['term_length', 'offset'], vars={'offset': 'i32'}),
+])
+
+IMGM = 'Image'
+SUBPOS = ('self . subscriber_position . get ( )', 'subscriber_position', 'i64')
+AREAS['image'] = dict(out='GenSrcImage', files=[IMG, 'src/subscription.rs', BIT, FD, LBD], requires=['GenSrcBits'], fns=[
+    F(IMG, IMGM, 'validate_position', 'src_img_validate_position', self=['term_length_mask'], opaque=[SUBPOS]),
+    F(IMG, IMGM, 'create', 'src_img_term_length_mask', frag=('field', 'term_length_mask'), params=['capacity'],
+      vars={'capacity': 'i32'}, ty='i32'),
+    F(IMG, IMGM, 'create', 'src_img_position_bits_to_shift', frag=('field', 'position_bits_to_shift'), params=['capacity'],
+      vars={'capacity': 'i32'}, ty='i32'),
+    # poll
+    F(IMG, IMGM, 'poll', 'src_img_poll_term_offset', frag=('let', 'term_offset'), self=['term_length_mask'], params=['position'],
+      vars={'position': 'i64'}),
+    F(IMG, IMGM, 'poll', 'src_img_poll_index', frag=('let', 'index'), self=['position_bits_to_shift'], params=['position'],
+      vars={'position': 'i64'}),
+    F(IMG, IMGM, 'poll', 'src_img_poll_new_position', frag=('let', 'new_position'), params=['position', 'term_offset'],
+      vars={'position': 'i64', 'term_offset': 'i32'}, opaque=[('read_outcome . offset', 'read_offset', 'i32')]),
+    F(IMG, IMGM, 'poll', 'src_img_poll_advances', frag=('cond', 'if', 2), params=['new_position', 'position'],
+      vars={'new_position': 'i64', 'position': 'i64'}),
+    # bounded_poll
+    F(IMG, IMGM, 'bounded_poll', 'src_img_bounded_initial_offset', frag=('let', 'initial_offset'), self=['term_length_mask'],
+      params=['initial_position'], vars={'initial_position': 'i64'}),
+    F(IMG, IMGM, 'bounded_poll', 'src_img_bounded_limit_offset', frag=('let', 'limit_offset'),
+      params=['limit_position', 'initial_position', 'offset', 'capacity'],
+      vars={'initial_position': 'i64', 'offset': 'i32', 'capacity': 'i64'}),
+    F(IMG, IMGM, 'bounded_poll', 'src_img_bounded_continue', frag=('cond', 'while', 0),
+      params=['fragments_read', 'fragment_limit', 'offset', 'limit_offset'],
+      vars={'fragments_read': 'i32', 'offset': 'i32', 'limit_offset': 'i32'}),
+    F(IMG, IMGM, 'bounded_poll', 'src_img_bounded_stop', frag=('cond', 'if', 1), params=['length'], vars={'length': 'i32'}),
+    F(IMG, IMGM, 'bounded_poll', 'src_img_bounded_aligned_length', frag=('let', 'aligned_length'), params=['length'],
+      vars={'length': 'i32'}),
+    F(IMG, IMGM, 'bounded_poll', 'src_img_bounded_advance', frag=('assign', 'offset', '+='), params=['offset', 'aligned_length'],
+      vars={'offset': 'i32', 'aligned_length': 'i32'}),
+    F(IMG, IMGM, 'bounded_poll', 'src_img_bounded_data_offset', frag=('callarg', 'fragment_handler', 0, 1), params=['frame_offset'],
+      vars={'frame_offset': 'i32'}, ty='i32'),
+    F(IMG, IMGM, 'bounded_poll', 'src_img_bounded_data_length', frag=('callarg', 'fragment_handler', 0, 2), params=['length'],
+      vars={'length': 'i32'}, ty='i32'),
+    F(IMG, IMGM, 'bounded_poll', 'src_img_bounded_resulting_position', frag=('let', 'resulting_position'),
+      params=['initial_position', 'offset', 'initial_offset'], vars={'initial_position': 'i64', 'offset': 'i32', 'initial_offset': 'i32'}),
+    F(IMG, IMGM, 'bounded_poll', 'src_img_bounded_advances', frag=('cond', 'if', 3), params=['resulting_position', 'initial_position'],
+      vars={'resulting_position': 'i64', 'initial_position': 'i64'}),
+    # Subscription::poll_inner (C20): the rotation of the starting image
+    F('src/subscription.rs', 'Subscription', 'poll_inner', 'src_sub_starting_index', frag=('let', 'starting_index'),
+      self=['round_robin_index']),
+    F('src/subscription.rs', 'Subscription', 'poll_inner', 'src_sub_next_round_robin', frag=('selfassign', 'round_robin_index', '+='),
+      self=['round_robin_index']),
+    F('src/subscription.rs', 'Subscription', 'poll_inner', 'src_sub_wraps', frag=('cond', 'if', 0), params=['starting_index'],
+      vars={'starting_index': 'usize'}, opaque=[('image_list . len ( )', 'image_count', 'usize')]),
+    F('src/subscription.rs', 'Subscription', 'poll_inner', 'src_sub_has_budget', frag=('cond', 'if', 1),
+      params=['fragments_read', 'fragment_limit'], vars={'fragments_read': 'i32'}),
+    F('src/subscription.rs', 'Subscription', 'poll_inner', 'src_sub_budget_left', frag=('callarg', 'poll_kind', 0, 1),
+      params=['fragment_limit', 'fragments_read'], vars={'fragments_read': 'i32'}, ty='i32'),
 ])
 
 
